@@ -32,6 +32,8 @@ type Frame struct {
 	callCount map[string]int
 }
 
+var autoRangeInv *SExpr
+
 type retEdge struct {
 	st   *State
 	vals []*Val
@@ -68,12 +70,26 @@ func (ex *Exec) newFrame(fn *ssa.Function, args []*Val, depth int) *Frame {
 		}
 	}
 	fr.computeLoops()
+	// range loops: the hidden index starts at -1 and only grows (automatic, checked invariant)
+	for _, l := range fr.loops {
+		if strings.HasPrefix(l.header.Comment, "rangeindex.loop") {
+			if autoRangeInv == nil {
+				autoRangeInv, _ = ParseSpec("-1 <= rangeindex && rangeindex <= 1099511627776")
+			}
+			l.spec = &LoopSpec{Invariants: []*Clause{{Kind: "invariant", Label: "auto-rangeindex", Expr: autoRangeInv, Text: "-1 <= rangeindex && rangeindex <= 2^40 (automatic)"}}}
+		}
+	}
 	if fr.contract != nil {
 		for k, ls := range fr.contract.Loops {
 			found := false
 			for _, l := range fr.loops {
 				if l.ordinal == k {
-					l.spec = ls
+					if l.spec != nil {
+						merged := &LoopSpec{Invariants: append(append([]*Clause{}, l.spec.Invariants...), ls.Invariants...), Decreases: ls.Decreases, Unroll: ls.Unroll}
+						l.spec = merged
+					} else {
+						l.spec = ls
+					}
 					found = true
 				}
 			}
@@ -401,6 +417,31 @@ func (ex *Exec) havocWritten(st *State, pre *State, written map[string]*writeRec
 			}
 		} else {
 			nv = ex.freshVal(meta.typ, nm)
+			if cur != nil && nv.K == KIface && cur.K == KIface && !isErrorType(meta.typ) && len(cur.Cases) > 0 {
+				// keep the payload objects (points-to shape); the dynamic type is nil, the previous one, or one written in the loop
+				compatible := true
+				alts := []Term{Eq(nv.Tag, BVConst(0, 16)), Eq(nv.Tag, cur.Tag)}
+				for _, wv := range r.vals {
+					if wv.K != KIface {
+						continue
+					}
+					for k, pv := range wv.Cases {
+						cp, ok := cur.Cases[k]
+						if !ok || len(cp.Tg) != 1 || len(pv.Tg) != 1 || cp.Tg[0].Loc.Obj != pv.Tg[0].Loc.Obj {
+							compatible = false
+						}
+					}
+					alts = append(alts, Eq(nv.Tag, wv.Tag))
+				}
+				if compatible {
+					tag := ex.declare(nm+".tag", BV(16))
+					for i := range alts {
+						alts[i] = Term{S: strings.ReplaceAll(alts[i].S, nv.Tag.S, tag.S), Sort: BoolSort}
+					}
+					ex.fact(Or(alts...))
+					nv = &Val{K: KIface, Typ: cur.Typ, Tag: tag, Cases: cur.Cases}
+				}
+			}
 			if cur != nil && (nv.K == KPtr || nv.K == KSlice) && cur.K == nv.K {
 				// union of targets
 				var tgs []Target
@@ -616,6 +657,11 @@ func (ex *Exec) globalObj(g *ssa.Global) *Obj {
 	o.Symbolic = true
 	o.Global = true
 	ex.globals[g] = o
+	if _, isFn := under(o.Typ).(*types.Signature); isFn {
+		full := fmt.Sprintf("%d|", o.ID)
+		ex.entry[full] = &Val{K: KFunc, Typ: o.Typ, IsNil: False, FnVar: g.Pkg.Pkg.Path() + "." + g.Name()}
+		ex.cellMeta[full] = cellMeta{obj: o, key: "", typ: o.Typ}
+	}
 	// error sentinels are constants
 	if isErrorType(o.Typ) {
 		full := fmt.Sprintf("%d|", o.ID)
@@ -664,7 +710,7 @@ func (p *Prog) strConst(s string) Term {
 func (ex *Exec) doReturn(fr *Frame, st *State, vs []*Val, ret *ssa.Return) {
 	fr.retCount++
 	if fr.isRoot && ex.quiet == 0 {
-		ex.checkPost(fr, st, vs, fr.retCount, posOf(fr.fn, ret.Pos()))
+		ex.checkPost(fr, st, vs, returnOrdinal(fr.fn, ret), posOf(fr.fn, ret.Pos()))
 	}
 	fr.rets = append(fr.rets, retEdge{st: st, vals: vs})
 }
@@ -674,4 +720,20 @@ func (ex *Exec) setVal(fr *Frame, v ssa.Value, x *Val) {
 		x = &Val{K: KScalar, Typ: x.Typ, T: ex.name(x.T, v.Name())}
 	}
 	fr.vals[v] = x
+}
+
+// returnOrdinal numbers the return statements of a function in source (block) order.
+func returnOrdinal(fn *ssa.Function, ret *ssa.Return) int {
+	n := 0
+	for _, b := range fn.Blocks {
+		for _, in := range b.Instrs {
+			if r, ok := in.(*ssa.Return); ok {
+				n++
+				if r == ret {
+					return n
+				}
+			}
+		}
+	}
+	return 0
 }
